@@ -198,8 +198,8 @@ func runInspect(run func(sync func(int) error) runner.Result, release *os.File, 
 	case pid = <-pidCh:
 	case r := <-resCh:
 		return r, nil
-	case <-time.After(20 * time.Second):
-		return runner.Result{}, vh.Violf("C05:hung", "launch did not reach the sync callback in 20s")
+	case <-time.After(120 * time.Second):
+		return runner.Result{}, vh.Violf("C05:hung", "launch did not reach the sync callback in 120s")
 	}
 	deadline := time.Now().Add(10 * time.Second)
 	for {
@@ -221,8 +221,8 @@ func runInspect(run func(sync func(int) error) runner.Result, release *os.File, 
 	select {
 	case r := <-resCh:
 		return r, nil
-	case <-time.After(20 * time.Second):
-		return runner.Result{}, vh.Violf("C05:hung", "run did not finish in 20s after release")
+	case <-time.After(120 * time.Second):
+		return runner.Result{}, vh.Violf("C05:hung", "run did not finish in 120s after release")
 	}
 }
 
